@@ -210,7 +210,25 @@ def _abs(engine, cx, lineno, x):
         return abs(x)
     if hasattr(x, 'abs'):
         return x.abs()
+    from .poly import Poly
+    if isinstance(x, Poly):
+        return _abs_atom(x)
+    from .tensor import XT
+    if isinstance(x, XT):
+        import numpy as _np
+        return x._new(_np.vectorize(lambda e: _abs_atom(Poly.lift(e)) if not is_num(e) else abs(e), otypes=[object])(x.a))
     raise Unsupported(f'abs({x!r})')
+
+
+def _abs_atom(p):
+    """|p| for a polynomial of unknown sign: an opaque atom named by the normal form of p (|p| is neither p nor -p in general)."""
+    import hashlib
+    from .poly import Poly
+    if len(p.t) == 0:
+        return Poly()
+    if p.is_const() if hasattr(p, 'is_const') else False:
+        return p
+    return Poly.var('abs[' + hashlib.md5(repr(p.key()).encode()).hexdigest()[:10] + ']')
 
 
 def _round(engine, cx, lineno, x, ndigits=None):
